@@ -82,6 +82,7 @@ void harness(void) {
   VP_ASSERT(!__CPROVER_same_object(p, live) && live[3] == 77, "returned block is disjoint from a live block, which is untouched");
   ASSERT_MMC_INV();
   VP_ASSERT(m4ri_mmc_cache[in_g].size == 0 || !__CPROVER_same_object(m4ri_mmc_cache[in_g].data, p), "returned block is no longer in the cache");
+  VP_CANARY();
 }
 #endif
 
@@ -96,6 +97,7 @@ void harness(void) {
   unsigned char *p = m4ri_mmc_calloc(in_count, in_size);
   VP_ASSERT(p != NULL && __CPROVER_rw_ok(p, in_count * in_size), "calloc: usable");
   VP_ASSERT(p[in_at] == 0, "calloc: every byte zero whatever the recycled block contained");
+  VP_CANARY();
 }
 #endif
 
@@ -115,6 +117,7 @@ void harness(void) {
   m4ri_mmc_free(p, in_size);
   ASSERT_MMC_INV();
   VP_ASSERT(__CPROVER_rw_ok(live, 16) && live[5] == 42, "a live block is neither freed nor written");
+  VP_CANARY();
 }
 #endif
 
@@ -130,6 +133,7 @@ void harness(void) {
   VP_ASSUME(p != NULL);
   m4ri_mmc_free(p, in_size);
   m4ri_mmc_cleanup();
+  VP_CANARY();
 }
 #endif
 
@@ -141,6 +145,7 @@ void harness(void) {
   GHOST_SLOTS();
   m4ri_mmc_free(NULL, 0);
   ASSERT_MMC_INV();
+  VP_CANARY();
 }
 #endif
 
@@ -153,6 +158,7 @@ void harness(void) {
   VP_ASSUME(0 <= in_g && in_g < NB);
   m4ri_mmc_cleanup();
   VP_ASSERT(m4ri_mmc_cache[in_g].size == 0, "cleanup: no cached block remains");
+  VP_CANARY();
 }
 #endif
 
@@ -169,6 +175,7 @@ void harness(void) {
   mzd_free(A);
   m4ri_mmc_cleanup();
   VP_ASSERT(mzd_cache.used == 0 && mzd_cache.next == NULL, "header cache empty after all frees");
+  VP_CANARY();
 }
 #endif
 
@@ -235,6 +242,7 @@ void harness(void) {
   VP_ASSERT(hdr_inv() >= 0, "INV_HDR preserved by mzd_t_malloc");
   VP_ASSERT(!was_used || h != ghosth, "a header that is in use is never handed out again");
   VP_ASSERT(!was_used || ((blk[in_gk]->used >> in_ge) & 1), "used marks of live headers are kept");
+  VP_CANARY();
 }
 #endif
 
@@ -254,6 +262,7 @@ void harness(void) {
   if (!(k_becomes_empty && in_k != 0)) VP_ASSERT(((blk[in_k]->used >> in_e) & 1) == 0, "the freed header is marked free");
   if (g_used && !(in_gk == in_k && k_becomes_empty && in_k != 0))
     VP_ASSERT(__CPROVER_rw_ok(&blk[in_gk]->mzd[in_ge], sizeof(mzd_t)) && ((blk[in_gk]->used >> in_ge) & 1), "every other live header stays live and marked");
+  VP_CANARY();
 }
 #endif
 
@@ -264,6 +273,7 @@ void harness(void) {
   mzd_t *h = m4ri_mm_malloc(sizeof(mzd_t));
   mzd_t_free(h);
   VP_ASSERT(hdr_inv() >= 0, "INV_HDR preserved");
+  VP_CANARY();
 }
 #endif
 
@@ -292,6 +302,7 @@ void harness(void) {
     VP_ASSERT(A->data == NULL, "zero-area matrix owns no storage");
   VP_ASSERT(live[1] == 0x1234, "live storage untouched");
   VP_ASSERT(hdr_inv() >= 0, "INV_HDR preserved by mzd_init");
+  VP_CANARY();
 }
 #endif
 
@@ -317,5 +328,6 @@ void harness(void) {
   VP_ASSERT(hdr_inv() >= 0, "INV_HDR preserved");
   mzd_free(A);
   VP_ASSERT(hdr_inv() >= 0, "INV_HDR preserved by mzd_free");
+  VP_CANARY();
 }
 #endif
